@@ -44,6 +44,7 @@ type World struct {
 	freshObj  map[*FuncInfo]bool
 	ownW      map[*FuncInfo]map[string]map[int]bool
 	retSum    map[*FuncInfo]ocls
+	retObj    map[*FuncInfo]psrc
 	mutParams map[*FuncInfo]map[int]bool // parameters (receiver excluded) whose map/slice content the function writes in place
 }
 
